@@ -114,9 +114,14 @@ pub fn generate(profile: &str, seed: u64, index: u64) -> CrashScenario {
     if prepare_ahead {
         classes.push("counted-pairs-prepared-a-lifetime-ahead".into());
     }
-    let edge_off = if rng.chance(1, 3) { 6 + rng.below(6) } else { 0 };
-    if edge_off > 0 {
+    // 6..=11: the function ends that many bytes before a page nobody can re-protect;
+    // 5: its 5-byte entry jump ends exactly on the page boundary, and the next page is an ordinary
+    //    data page of the test that may be unmapped while the fake is installed
+    let edge_off = if rng.chance(1, 3) { 5 + rng.below(7) } else { 0 };
+    if edge_off > 5 {
         classes.push("edge-function-before-immutable-page".into());
+    } else if edge_off == 5 {
+        classes.push("edge-function-ends-on-page-boundary".into());
     }
     for _ in 0..n_l {
         let mut steps: Vec<Step> = Vec::new();
@@ -129,6 +134,7 @@ pub fn generate(profile: &str, seed: u64, index: u64) -> CrashScenario {
             let c = rng.below(if edge_off > 0 { 15 } else { 12 });
             match c {
                 12 | 13 => steps.push(st("install_edge")),
+                14 if edge_off == 5 && rng.chance(1, 2) => steps.push(st("env_unmap_after_edge")),
                 14 => steps.push(st("call_edge")),
                 0 => {
                     steps.push(st("install_a_raw"));
@@ -267,7 +273,9 @@ async fn async_u32(x: u32) -> u32 {
 }
 
 fn slot(addr: usize) -> Vec<u8> {
-    unsafe { std::slice::from_raw_parts(addr as *const u8, 16).to_vec() }
+    // the edge function may end with its page (and the page behind it may be gone)
+    let n = if (EDGE_BASE as usize..EDGE_BASE as usize + 4096).contains(&addr) { (EDGE_BASE as usize + 4096 - addr).min(16) } else { 16 };
+    unsafe { std::slice::from_raw_parts(addr as *const u8, n).to_vec() }
 }
 
 fn targets(edge_off: u64) -> Vec<(&'static str, usize)> {
@@ -344,13 +352,23 @@ pub fn execute(sc: &CrashScenario, sh: &Shared) -> Value {
     crate::arena::seal_rx(LONELY_FN & !4095, 4096);
     let edge_fn = EDGE_BASE + 4096 - sc.edge_off;
     if sc.edge_off > 0 {
-        if !(6..=11).contains(&sc.edge_off) || !crate::arena::map_rw(EDGE_BASE, 8192) {
+        if !(5..=11).contains(&sc.edge_off) || !crate::arena::map_rw(EDGE_BASE, 8192) {
             return json!({"skipped": "edge arena unavailable"});
         }
-        crate::arena::write_const_fn(edge_fn, 0x66);
-        crate::arena::seal_rx(EDGE_BASE, 8192);
-        interpose::set_permanent_deny(Some((EDGE_BASE + 4096, EDGE_BASE + 8192)));
+        if sc.edge_off == 5 {
+            // `mov al, 0x66; ret; int3; int3` -- five bytes, the last one is the last of the page;
+            // the next page stays an ordinary read-write data page
+            let code = [0xB0u8, 0x66, 0xC3, 0xCC, 0xCC];
+            unsafe { std::ptr::copy_nonoverlapping(code.as_ptr(), edge_fn as *mut u8, 5) };
+            crate::arena::seal_rx(EDGE_BASE, 4096);
+        } else {
+            crate::arena::write_const_fn(edge_fn, 0x66);
+            crate::arena::seal_rx(EDGE_BASE, 8192);
+            interpose::set_permanent_deny(Some((EDGE_BASE + 4096, EDGE_BASE + 8192)));
+        }
     }
+    let edge_mask: u32 = if sc.edge_off == 5 { 0xFF } else { u32::MAX };
+    let edge_neighbour_gone = std::cell::Cell::new(false);
     let tg = targets(sc.edge_off);
     let pristine: Vec<Vec<u8>> = tg.iter().map(|(_, a)| slot(*a)).collect();
     let mut digest = 0xC5u64;
@@ -436,8 +454,16 @@ pub fn execute(sc: &CrashScenario, sh: &Shared) -> Value {
                         inj.when_called(unsafe { FuncPtr::new(edge_fn as *const (), "fn() -> u32") }).will_execute_raw(injectorpp::func!(fn (cr_fake_edge)() -> u32));
                         edge_faked = true;
                     }
+                    "env_unmap_after_edge" if sc.edge_off == 5 => {
+                        // the test frees its own buffer next to the code page; nothing of the
+                        // injector's business (raw system call, not seen by the interposer)
+                        if !edge_neighbour_gone.get() {
+                            unsafe { libc::syscall(libc::SYS_munmap, (EDGE_BASE + 4096) as usize, 4096usize) };
+                            edge_neighbour_gone.set(true);
+                        }
+                    }
                     "call_edge" if sc.edge_off > 0 => {
-                        let got = crate::arena::call_u32(edge_fn);
+                        let got = crate::arena::call_u32(edge_fn) & if edge_faked { u32::MAX } else { edge_mask };
                         let want = if edge_faked { 0x99 } else { 0x66 };
                         if got != want {
                             v("call-result-differs-from-model", &["C05", "C01"], format!("lifetime {li} step {si}: edge function returned {got:#x}, model {want:#x}"));
@@ -646,7 +672,7 @@ pub fn execute(sc: &CrashScenario, sh: &Shared) -> Value {
                 v("not-restored-after-unwinding", &["C05", "C02"], format!("{what}: {name} entry bytes {:02x?}, originally {:02x?}", now, pristine[i]));
             }
         }
-        if cr_a(1) != 2 || cr_b(9) != true || cr_b(1) != false || cr_c() != "orig" || cr_e(1) != 4 || crate::arena::call_u32(LONELY_FN) != 0x77 || (sc.edge_off > 0 && crate::arena::call_u32(edge_fn) != 0x66) {
+        if cr_a(1) != 2 || cr_b(9) != true || cr_b(1) != false || cr_c() != "orig" || cr_e(1) != 4 || crate::arena::call_u32(LONELY_FN) != 0x77 || (sc.edge_off > 0 && crate::arena::call_u32(edge_fn) & edge_mask != 0x66) {
             v("behaviour-not-original-after-unwinding", &["C05", "C02"], format!("{what}: an original function misbehaves"));
         }
         // ---- a fresh thread gets the guard and can use a new injector normally
@@ -679,8 +705,11 @@ pub fn execute(sc: &CrashScenario, sh: &Shared) -> Value {
     if fired > 0 {
         faults.insert("mprotect_on_immutable_page_refused".into(), fired);
     }
-    if sc.edge_off > 0 {
+    if sc.edge_off > 5 {
         *probes.entry("function_ends_before_immutable_page".into()).or_insert(0) += 1;
+    }
+    if edge_neighbour_gone.get() {
+        faults.insert("env_page_after_the_function_unmapped_while_faked".into(), 1);
     }
     json!({
         "violations": viol.into_inner(),
